@@ -44,8 +44,16 @@
      references handed out by lookups point into a live slot of the array
        (get / get_mut / get_key_value are the same scan)
                                                    C06_get_result_live
-     what iteration yields at step i is slot i of the array, i < len
-                                                   C06_iter_yield_is_elem
+       (C06_get_result_live states `live`, i.e. i < cap, for `get` only; the
+        full statement i < len <= cap and live, for get, get_mut,
+        get_key_value, Set::get, index, index_mut, is in the AUDIT CLOSURE
+        section at the end of this file: C06_get_inside ...)
+     a slot i < len holds entry i of the content (a fact about states, it does
+       not mention the iterator)                   C06_iter_yield_is_elem
+     what the actual session iter ;; next^n yields: slots i < len, all inside
+                                                   C06_iter_yields_inside (end of file)
+     OccupiedEntry accessors, set algebra adaptors, construction
+                                                   AUDIT CLOSURE section (end of file)
      get_disjoint_mut: every index returned is < len, indices pairwise distinct
                                                    C06_disjoint_safe
      entry API: VacantEntry::insert / or_insert return an index < len
@@ -166,3 +174,323 @@ Example C06_example_caps :
   caps (snd (step false {| sc_adv := false; sc_seed := 0; sc_fk := 0; sc_fa := 0 |}
                   (OInsert 0 (mk 1 5) (mv 2 7)) (init_world 4 0 2 2))) = (4, 0, 2, 2).
 Proof. vm_compute. reflexivity. Qed.
+
+(* ========================================================================== *)
+(* AUDIT CLOSURE for C06 (Proofs/MoreIter.v)
+
+   Clause covered: "Every element reference handed out points inside the
+   bytes of the container value itself" (its model half: every reference is
+   identified by an index i of the container's own array with
+   i < len m <= cap m and slot i live), and "construction".
+
+     inside m i  :=  i < len m /\ len m <= cap m /\ live m i
+     opt_inside m r  :=  match r with Some i => inside m i | None => True end
+
+   ALL theorems of this section hold for EVERY environment E (no lawfulness:
+   whatever ==, Clone, Drop answer or panic), every capacity including 0; the
+   only hypothesis is WF (self w) = the container invariant (every reachable
+   state satisfies it, C06_step_safe / C02 / C04).  The panic postcondition
+   `self w' = self w` says: a comparison may panic, the container is untouched
+   (no reference is handed out on that path).
+
+     lookups (what the audit found stated only for `get`, and with `< cap`):
+       C06_get_inside, C06_get_mut_inside, C06_get_key_value_inside,
+       C06_s_get_inside (Set::get), C06_index_inside, C06_index_mut_inside
+     iteration, for the actual session  iter ;; iter_run n :
+       C06_iter_yields_inside   every yielded slot i has i < len and is inside
+       C06_iter_next_inside     one next() from any cursor with hi <= len
+     OccupiedEntry::get / get_mut / into_mut / key (Gaps.occ_*_lawful restated
+     with the location) and the whole chain map.entry(k) -> accessor:
+       C06_occ_get_inside, C06_occ_get_mut_inside, C06_occ_into_mut_inside,
+       C06_occ_key_inside, C06_entry_ref_inside
+     set algebra: an item (false,i) designates slot i of the first operand a,
+     (true,i) slot i of the second operand b (Exec.r_side); every item yielded
+     lies inside the operand it comes from:
+       C06_sel_In_inside        the pure selection of Algebra.v
+       C06_diff_next_inside, C06_inter_next_inside   (slots of a)
+       C06_union_next_inside, C06_symdiff_next_inside (chain: a and b)
+       (chain_ok la lb u: the cursors of the chain lie within la / lb,
+        Proofs/Safety3.v; it holds for the chains `union` / `symdiff` return,
+        Algebra2.union_lawful / symdiff_lawful, and is preserved by next)
+     construction:
+       C06_new_map_shape        Map::new(): capacity n, len 0, WF, no element
+       C06_with_capacity_shape  with_capacity(c) is accepted iff c = N
+       C06_with_capacity_op     the interpreter's with_capacity operation
+   ========================================================================== *)
+Require Import Proofs.MoreIter Proofs.Algebra.
+
+Theorem C06_inside_lt_cap :
+  forall (K V : Type) (m : map K V) (i : nat), inside m i -> i < cap m.
+Proof. exact (@inside_lt_cap). Qed.
+Print Assumptions C06_inside_lt_cap.
+
+Theorem C06_get_inside :
+  forall (K V Q T : Type) (E : env K V Q T) (q : Q) (w : world K V T),
+  WF (self w) ->
+  wp (get E q)
+    (fun (r : option nat) (w' : world K V T) => self w' = self w /\ opt_inside (self w') r)
+    (fun w' : world K V T => self w' = self w) w.
+Proof. exact (@get_inside). Qed.
+Print Assumptions C06_get_inside.
+
+Theorem C06_get_mut_inside :
+  forall (K V Q T : Type) (E : env K V Q T) (q : Q) (w : world K V T),
+  WF (self w) ->
+  wp (get_mut E q)
+    (fun (r : option nat) (w' : world K V T) => self w' = self w /\ opt_inside (self w') r)
+    (fun w' : world K V T => self w' = self w) w.
+Proof. exact (@get_mut_inside). Qed.
+Print Assumptions C06_get_mut_inside.
+
+Theorem C06_get_key_value_inside :
+  forall (K V Q T : Type) (E : env K V Q T) (q : Q) (w : world K V T),
+  WF (self w) ->
+  wp (get_key_value E q)
+    (fun (r : option nat) (w' : world K V T) => self w' = self w /\ opt_inside (self w') r)
+    (fun w' : world K V T => self w' = self w) w.
+Proof. exact (@get_key_value_inside). Qed.
+Print Assumptions C06_get_key_value_inside.
+
+Theorem C06_s_get_inside :
+  forall (K Q T : Type) (E : env K unit Q T) (q : Q) (w : world K unit T),
+  WF (self w) ->
+  wp (s_get E q)
+    (fun (r : option nat) (w' : world K unit T) => self w' = self w /\ opt_inside (self w') r)
+    (fun w' : world K unit T => self w' = self w) w.
+Proof. exact (@s_get_inside). Qed.
+Print Assumptions C06_s_get_inside.
+
+(* Index / IndexMut return a reference only on the normal path; on the panic
+   path (key absent, or == panicked) the container is untouched *)
+Theorem C06_index_inside :
+  forall (K V Q T : Type) (E : env K V Q T) (q : Q) (w : world K V T),
+  WF (self w) ->
+  wp (index E q)
+    (fun (i : nat) (w' : world K V T) => self w' = self w /\ inside (self w') i)
+    (fun w' : world K V T => self w' = self w) w.
+Proof. exact (@index_inside). Qed.
+Print Assumptions C06_index_inside.
+
+Theorem C06_index_mut_inside :
+  forall (K V Q T : Type) (E : env K V Q T) (q : Q) (w : world K V T),
+  WF (self w) ->
+  wp (index_mut E q)
+    (fun (i : nat) (w' : world K V T) => self w' = self w /\ inside (self w') i)
+    (fun w' : world K V T => self w' = self w) w.
+Proof. exact (@index_mut_inside). Qed.
+Print Assumptions C06_index_mut_inside.
+
+(* the actual iterator session: iter() then up to n calls of next() *)
+Theorem C06_iter_yields_inside :
+  forall (K V T : Type) (n : nat) (w : world K V T),
+  WF (self w) ->
+  wp (c <- iter ;; iter_run n c)
+    (fun (r : list nat * cursor) (w' : world K V T) =>
+       self w' = self w /\
+       Forall (fun i : nat => i < len (self w')) (fst r) /\
+       Forall (inside (self w')) (fst r))
+    (fun _ : world K V T => False) w.
+Proof. exact (@iter_yields_inside). Qed.
+Print Assumptions C06_iter_yields_inside.
+
+Theorem C06_iter_next_inside :
+  forall (K V T : Type) (lo hi : nat) (w : world K V T),
+  WF (self w) -> hi <= len (self w) ->
+  wp (iter_next (lo, hi))
+    (fun (r : option nat * cursor) (w' : world K V T) => w' = w /\ opt_inside (self w') (fst r))
+    (fun _ : world K V T => False) w.
+Proof. exact (@iter_next_inside). Qed.
+Print Assumptions C06_iter_next_inside.
+
+(* OccupiedEntry accessors: hypothesis i < len = the entry was produced by
+   entry_of on this container (C06_entry_ref_inside composes the two) *)
+Theorem C06_occ_get_inside :
+  forall (K V T : Type) (i : nat) (w : world K V T),
+  WF (self w) -> i < len (self w) ->
+  wp (occ_get i)
+    (fun (j : nat) (w' : world K V T) => w' = w /\ j = i /\ inside (self w') j)
+    (fun _ : world K V T => False) w.
+Proof. exact (@occ_get_inside). Qed.
+Print Assumptions C06_occ_get_inside.
+
+Theorem C06_occ_get_mut_inside :
+  forall (K V T : Type) (i : nat) (w : world K V T),
+  WF (self w) -> i < len (self w) ->
+  wp (occ_get_mut i)
+    (fun (j : nat) (w' : world K V T) => w' = w /\ j = i /\ inside (self w') j)
+    (fun _ : world K V T => False) w.
+Proof. exact (@occ_get_mut_inside). Qed.
+Print Assumptions C06_occ_get_mut_inside.
+
+Theorem C06_occ_into_mut_inside :
+  forall (K V T : Type) (i : nat) (w : world K V T),
+  WF (self w) -> i < len (self w) ->
+  wp (occ_into_mut i)
+    (fun (j : nat) (w' : world K V T) => w' = w /\ j = i /\ inside (self w') j)
+    (fun _ : world K V T => False) w.
+Proof. exact (@occ_into_mut_inside). Qed.
+Print Assumptions C06_occ_into_mut_inside.
+
+Theorem C06_occ_key_inside :
+  forall (K V T : Type) (i : nat) (w : world K V T),
+  WF (self w) -> i < len (self w) ->
+  wp (occ_key i)
+    (fun (j : nat) (w' : world K V T) => w' = w /\ j = i /\ inside (self w') j)
+    (fun _ : world K V T => False) w.
+Proof. exact (@occ_key_inside). Qed.
+Print Assumptions C06_occ_key_inside.
+
+(* map.entry(k) followed by any of the four accessors, every environment *)
+Theorem C06_entry_ref_inside :
+  forall (K V Q T : Type) (E : env K V Q T) (k : K) (acc : nat -> M K V T nat) (w : world K V T),
+  acc = occ_get \/ acc = occ_get_mut \/ acc = occ_into_mut \/ acc = occ_key ->
+  WF (self w) ->
+  wp (e <- entry_of E k ;;
+      match e with
+      | Occupied i => j <- acc i ;; ret (Some j)
+      | Vacant _ => ret None
+      end)
+    (fun (r : option nat) (w' : world K V T) => self w' = self w /\ opt_inside (self w') r)
+    (fun w' : world K V T => self w' = self w) w.
+Proof. exact (@entry_ref_inside). Qed.
+Print Assumptions C06_entry_ref_inside.
+
+(* set algebra *)
+Theorem C06_sel_In_inside :
+  forall (K : Type) (ck : K -> N) (a b : map K unit) (want : bool) (lo n i : nat),
+  WF a -> In i (sel ck a b want lo n) -> lo + n <= len a -> i < len a /\ inside a i.
+Proof. exact (@sel_In_inside). Qed.
+Print Assumptions C06_sel_In_inside.
+
+Theorem C06_diff_next_inside :
+  forall (K Q T : Type) (E : env K unit Q T) (a b : map K unit) (c : cursor) (w : world K unit T),
+  WF a -> WF b -> snd c <= len a -> fst c <= snd c ->
+  wp (diff_next E a b c)
+    (fun (r : option nat * cursor) (w' : world K unit T) =>
+       self w' = self w /\ snd (snd r) <= len a /\ fst (snd r) <= snd (snd r) /\
+       opt_inside a (fst r))
+    (fun w' : world K unit T => self w' = self w) w.
+Proof. exact (@diff_next_inside). Qed.
+Print Assumptions C06_diff_next_inside.
+
+Theorem C06_inter_next_inside :
+  forall (K Q T : Type) (E : env K unit Q T) (a b : map K unit) (c : cursor) (w : world K unit T),
+  WF a -> WF b -> snd c <= len a -> fst c <= snd c ->
+  wp (inter_next E a b c)
+    (fun (r : option nat * cursor) (w' : world K unit T) =>
+       self w' = self w /\ snd (snd r) <= len a /\ fst (snd r) <= snd (snd r) /\
+       opt_inside a (fst r))
+    (fun w' : world K unit T => self w' = self w) w.
+Proof. exact (@inter_next_inside). Qed.
+Print Assumptions C06_inter_next_inside.
+
+(* side_inside a b x := inside (if fst x then b else a) (snd x) *)
+Theorem C06_union_next_inside :
+  forall (K Q T : Type) (E : env K unit Q T) (a b : map K unit) (u : chain) (w : world K unit T),
+  WF a -> WF b -> chain_ok (len b) (len a) u ->
+  wp (union_next E a b u)
+    (fun (r : option (bool * nat) * chain) (w' : world K unit T) =>
+       self w' = self w /\ chain_ok (len b) (len a) (snd r) /\ opt_side_inside a b (fst r))
+    (fun w' : world K unit T => self w' = self w) w.
+Proof. exact (@union_next_inside). Qed.
+Print Assumptions C06_union_next_inside.
+
+Theorem C06_symdiff_next_inside :
+  forall (K Q T : Type) (E : env K unit Q T) (a b : map K unit) (u : chain) (w : world K unit T),
+  WF a -> WF b -> chain_ok (len a) (len b) u ->
+  wp (symdiff_next E a b u)
+    (fun (r : option (bool * nat) * chain) (w' : world K unit T) =>
+       self w' = self w /\ chain_ok (len a) (len b) (snd r) /\ opt_side_inside a b (fst r))
+    (fun w' : world K unit T => self w' = self w) w.
+Proof. exact (@symdiff_next_inside). Qed.
+Print Assumptions C06_symdiff_next_inside.
+
+(* construction *)
+Theorem C06_new_map_shape :
+  forall (K V : Type) (n : nat),
+  cap (@new_map K V n) = n /\ len (@new_map K V n) = 0 /\ WF (@new_map K V n) /\
+  Spec.elems (@new_map K V n) = [] /\ Tidy (@new_map K V n).
+Proof. exact (@new_map_shape). Qed.
+Print Assumptions C06_new_map_shape.
+
+Theorem C06_with_capacity_shape :
+  forall (K V : Type) (c n : nat),
+  (with_capacity_ok c n = true <-> c = n) /\
+  (with_capacity_ok c n = true ->
+   cap (@new_map K V n) = c /\ len (@new_map K V n) = 0 /\ WF (@new_map K V n)).
+Proof. exact (@with_capacity_shape). Qed.
+Print Assumptions C06_with_capacity_shape.
+
+(* the interpreter's OWithCapacity on a register of capacity N = cap (self w):
+   normal return iff c = N, and then the register holds Map::new() of that
+   capacity; panic: either c <> N and nothing changed, or the destructor of the
+   OLD value panicked and the register already holds the new empty container *)
+Theorem C06_with_capacity_op :
+  forall (V : Type) (E : env key V query cstate) (c : nat) (w : world key V cstate),
+  WF (self w) ->
+  wp (n <- get_cap ;; if with_capacity_ok c n then replace_with E (ret tt) [] else panic)
+    (fun (_ : list N) (w' : world key V cstate) =>
+       c = cap (self w) /\ cap (self w') = c /\ len (self w') = 0 /\ self w' = new_map c)
+    (fun w' : world key V cstate =>
+       (c <> cap (self w) /\ self w' = self w) \/ (c = cap (self w) /\ self w' = new_map c)) w.
+Proof. exact (@with_capacity_op). Qed.
+Print Assumptions C06_with_capacity_op.
+
+(* -------------------------------------------------------------------------- *)
+(* non-vacuity                                                                *)
+Definition C06_sc0 : script := {| sc_adv := false; sc_seed := 0; sc_fk := 0; sc_fa := 0 |}.
+
+(* a full session over m3 yields slots 0,1,2 (all < len = 3 = cap); index of
+   class 6 returns slot 1; entry(class 6).get() returns slot 1 *)
+Example C06_example_inside :
+  (c <- iter ;; iter_run 5 c) (w_of m3) = Ok ([0; 1; 2], (3, 3)) (w_of m3) /\
+  len m3 = 3 /\ cap m3 = 3 /\
+  match index (env_map C06_sc0) (QCls 6) (w_of m3) with
+  | Ok i w' => i = 1 /\ self w' = m3
+  | _ => False
+  end /\
+  match (e <- entry_of (env_map C06_sc0) (k_ 9 6) ;;
+         match e with Occupied i => j <- occ_get i ;; ret (Some j) | Vacant _ => ret None end)
+          (w_of m3) with
+  | Ok r w' => r = Some 1 /\ self w' = m3
+  | _ => False
+  end.
+Proof. vm_compute. repeat split; reflexivity. Qed.
+
+(* two sets a = {5, 6} (capacity 3), b = {6, 7}: they are WF, the chains
+   returned by union / symmetric_difference satisfy chain_ok, and the first
+   items are (true,0) = slot 0 of b for union, (false,0) = slot 0 of a for
+   the symmetric difference *)
+Definition C06_sa : map key unit :=
+  {| len := 2; slots := [Some (k_ 1 5, tt); Some (k_ 2 6, tt); None] |}.
+Definition C06_sb : map key unit :=
+  {| len := 2; slots := [Some (k_ 3 6, tt); Some (k_ 4 7, tt)] |}.
+Definition C06_ws : world key unit cstate := {| cb := cs0; log := []; self := new_map 0 |}.
+
+Example C06_example_sets_WF : WF C06_sa /\ WF C06_sb.
+Proof.
+  split; (split; [cbn; lia|]); intros i Hi; cbn [len C06_sa C06_sb] in Hi;
+    destruct i as [|[|i]]; try lia; eexists; reflexivity.
+Qed.
+
+Example C06_example_algebra :
+  match (u <- union C06_sa C06_sb ;; union_next (env_set C06_sc0) C06_sa C06_sb u) C06_ws with
+  | Ok r w' => fst r = Some (true, 0) /\ self w' = self C06_ws
+  | _ => False
+  end /\
+  match (u <- symdiff C06_sa C06_sb ;; symdiff_next (env_set C06_sc0) C06_sa C06_sb u) C06_ws with
+  | Ok r w' => fst r = Some (false, 0) /\ self w' = self C06_ws
+  | _ => False
+  end /\
+  chain_ok (len C06_sb) (len C06_sa) {| front := Some (0, len C06_sb); back := (0, len C06_sa) |} /\
+  chain_ok (len C06_sa) (len C06_sb) {| front := Some (0, len C06_sa); back := (0, len C06_sb) |}.
+Proof.
+  split; [vm_compute; split; reflexivity|]. split; [vm_compute; split; reflexivity|].
+  unfold chain_ok; cbn; lia.
+Qed.
+
+(* with_capacity(4) on a capacity-4 register is accepted, with_capacity(5) is not *)
+Example C06_example_with_capacity :
+  with_capacity_ok 4 4 = true /\ with_capacity_ok 5 4 = false /\
+  cap (@new_map key vobj 4) = 4 /\ len (@new_map key vobj 4) = 0.
+Proof. vm_compute. repeat split; reflexivity. Qed.
